@@ -4,7 +4,9 @@
    device is run on the recorded requests as well and must give the recorded replies (the
    Python device of the harness and the device of the theorems cannot drift). *)
 From Coq Require Import NArith ZArith List Bool.
-From PyIpmi Require Import Lib.Res Lib.Bytes Lib.Prog Model.SdrIO.
+From PyIpmi Require Import Lib.Res Lib.Bytes Lib.Prog Model.SdrIO Model.SdrE2E.
+(* parsed objects are compared through the attribute view of the C16 correspondence *)
+From PyIpmi Require Model.SdrParse Corr.C16.
 Import ListNotations.
 Open Scope N_scope.
 
@@ -49,3 +51,21 @@ Definition chk_list (s : sdr_state) (st : store)
 Definition chk_walk (st : store)
   (reqs : list request) (reps : list reply) (sleeps : list N) (exp : res (list (N * list N))) : bool :=
   chk_replay (list_eqb rec_eqb) (sdr_entries (S (length reps)) st) reqs reps sleeps exp.
+
+(* ---- end to end: parsed objects (Model/SdrE2E.v) ---- *)
+(* an object as observed: every attribute in the order of Corr.C16.observe, and next_id *)
+Definition obs_obj (o : sdr_obj) : list (list N) * option N := (C16.observe (fst o), snd o).
+Definition obj_eqb (a b : list (list N) * option N) : bool :=
+  C16.obs_eqb (fst a) (fst b) && option_eqb N.eqb (snd a) (snd b).
+
+(* get_repository_sdr / get_device_sdr -> object *)
+Definition chk_get_obj (s : sdr_state) (st : store) (rid : N) (resv : option N)
+  (reqs : list request) (reps : list reply) (sleeps : list N) (exp : res (list (list N) * option N)) : bool :=
+  chk_dev s reqs reps &&
+  chk_replay obj_eqb (dop o <- get_sdr_obj st rid resv; Ret (obs_obj o)) reqs reps sleeps exp.
+
+(* get_repository_sdr_list / get_device_sdr_list -> objects *)
+Definition chk_list_obj (s : sdr_state) (st : store)
+  (reqs : list request) (reps : list reply) (sleeps : list N) (exp : res (list (list (list N) * option N))) : bool :=
+  chk_dev s reqs reps &&
+  chk_replay (list_eqb obj_eqb) (dop l <- sdr_list_obj (S (length reps)) st; Ret (map obs_obj l)) reqs reps sleeps exp.
